@@ -83,10 +83,10 @@ where
         }
 
         // Actually write the data into the vector.
-        self.data[index] = Some(value);
-
-        // Increment the size so it stays accurate
-        self.size += 1;
+        if self.data[index].replace(value).is_none() {
+            // Increment the size so it stays accurate
+            self.size += 1;
+        }
     }
 
     /// Gets the value in the map for the provided `key` or [`None`] if there is
@@ -132,7 +132,9 @@ where
 
         if index < self.data.len() {
             let value = self.data[index].take();
-            self.size -= 1;
+            if value.is_some() {
+                self.size -= 1;
+            }
 
             value
         } else {
